@@ -54,7 +54,7 @@ CheckLiteral(e) ==
       ELSE IF c[1] = "reject" THEN e.m = <<"error">>
       ELSE e.m = e.p,
     \* an expanded constant equals the run-time parse of the same digits
-    runtime |-> (c[1] = "expand" /\ e.m[1] \in {"U", "B"}) => (e.rt = <<"ok", Norm(e.m[4])>>) ]
+    runtime |-> (c[1] = "expand" /\ e.m[1] \in {"U", "B"} /\ e.rt # <<"none">>) => (e.rt = <<"ok", Norm(e.m[4])>>) ]
 
 CheckLit(e) ==
   CASE e.op = "literal" -> CheckLiteral(e)
